@@ -4,8 +4,45 @@ Monitor: harness/invariants.cpp walks every document after every parse (normal r
 the ASan build; this check drives valid, error-recovered and exception-ending parses and collects the reports."""
 import random
 
-from .. import workloads
+import re
+
+from .. import faults, gen_model as GM, workloads
 from ..runner import Case, Step, run_cases
+
+
+def xta_models(rng, n):
+    """Textual (XTA) models: valid, with one recoverable semantic error, with edge endpoints that name something that is
+    not a location of the template (a variable, constant, parameter, function, template, process, type), with token
+    faults."""
+    mg = GM.ModelGen(rng, 3, 5, 8)
+    out = []
+    for i in range(n):
+        m = mg.model(rich_edges=rng.random() < 0.3)
+        x = rng.random()
+        tag = "xta-valid"
+        if x < 0.25:
+            m, d = faults.model_faults(m, rng)
+            tag = "xta-semantic:" + d
+        try:
+            xta = GM.render_xta(m, rng)
+        except KeyError:
+            continue        # a fault that has no XTA rendering (dangling location id)
+        if 0.25 <= x < 0.65:
+            arrows = list(re.finditer(r"(?m)^(\s*)(\w+)?(\s*)(-u->|->)(\s*)(\w+)(\s*\{)", xta))
+            if arrows:
+                a = rng.choice(arrows)
+                other = rng.choice(["g0", "N", "inc", "P0", "gx0", "c0", "p0", "l0", "lx", "int", "IP0", "AP0_0", "s0", "nosuch", "L0", "_zz"])
+                if a.group(2) and rng.random() < 0.4:
+                    xta = xta[:a.start(2)] + other + xta[a.end(2):]
+                    tag = "xta-endpoint:source-names-" + other
+                else:
+                    xta = xta[:a.start(6)] + other + xta[a.end(6):]
+                    tag = "xta-endpoint:target-names-" + other
+        elif x >= 0.85:
+            xta, _ = faults.token_faults(xta, rng, rng.choice([1, 1, 2]))
+            tag = "xta-token"
+        out.append((tag, xta))
+    return out
 
 
 def run(rep, tier, seed):
@@ -18,6 +55,8 @@ def run(rep, tier, seed):
         entry = rng.choice(["xml_buffer", "xml_buffer", "xml_file", "xml_fd"])
         newxta = 1 if rng.random() < 0.93 else 0
         cases.append((tag, Case("h%d" % i, [Step("parse_doc", 0, entry, newxta, 0, xml)], timeout=60)))
+    for i, (tag, xta) in enumerate(xta_models(rng, n // 4)):
+        cases.append((tag, Case("x%d" % i, [Step("parse_doc", 0, rng.choice(["xta_buffer", "xta_file"]), 1, 0, xta)], timeout=60)))
     res = run_cases([c for _, c in cases])
     totals = {}
     outcome = {"normal-clean": 0, "normal-with-errors": 0, "exception": 0}
@@ -31,6 +70,9 @@ def run(rep, tier, seed):
         s = r["steps"][0]
         oc = "exception" if s.get("exc") else ("normal-with-errors" if s["errors"] else "normal-clean")
         outcome[oc] += 1
+        if tag.startswith("xta-endpoint") and oc == "normal-clean" and not any(tag.endswith(x) for x in ("-L0",)):
+            # telemetry only: an endpoint naming a non-location was accepted without any diagnostic (the walker decides)
+            rep.extra.setdefault("endpoint_faults_accepted_silently", []).append(tag) if len(rep.extra.get("endpoint_faults_accepted_silently", [])) < 20 else None
         classes[tag.split(":")[0] + "/" + oc] = classes.get(tag.split(":")[0] + "/" + oc, 0) + 1
         cnt = s["inv"]["counts"]
         for k, v in cnt.items():
